@@ -109,6 +109,7 @@ type Side struct {
 	AppAccepted bool   `json:"app_accepted"` // a complete application message was returned without error
 	AppIntact   bool   `json:"app_intact"`   // ... and it is byte-identical to what the peer sent
 	AppErr      string `json:"app_err,omitempty"`
+	AppTimedOut bool   `json:"app_timed_out,omitempty"` // the application exchange ran into the deadline
 
 	key []byte
 }
@@ -243,6 +244,7 @@ func Run(env *Env, cfg Config, o Opts) *Result {
 			return
 		}
 		if err := st.SendMessage(ctx, mine); err != nil {
+			side.AppTimedOut = errors.Is(err, context.DeadlineExceeded)
 			side.AppErr = "send: " + err.Error()
 			conn.Close()
 			return
@@ -250,6 +252,7 @@ func Run(env *Env, cfg Config, o Opts) *Result {
 		side.AppSent = true
 		got, err := st.ReceiveCompleteMessage(ctx)
 		if err != nil {
+			side.AppTimedOut = errors.Is(err, context.DeadlineExceeded)
 			side.AppErr = "recv: " + err.Error()
 			conn.Close()
 			return
